@@ -743,11 +743,23 @@ def run_c18(tier, seed, keep=False):
             if rc:
                 break
             drift_check(w, "C18", "DijkstraTrace.tla", ["PopsLegal", "ResultIsSpecState"], {"N": str(n), "WSet": "{0}"}, out, ev, label)
+        if not rc:
+            # long graphs (> 1000 vertices, shortest paths of > 1000 edges): judged by the certificate of DijkstraSparse.tla
+            out = "d_sparse.ndjson"
+            r = w.run_drive(["dijkstra", "-mode", "sparse", "-n", "1100", "-count", "6" if q else "60", "-seed", str(seed), "-out", out])
+            log(r.stderr.strip())
+            cfg = write_cfg(w, "T_C18_driver.cfg", "Spec", ["DriverOK"], constants={"TraceFile": '"%s"' % out})
+            res = w.tlc("DijkstraSparse.tla", cfg, workers=1, timeout=1500)
+            if not res["ok"]:
+                raise Infra("the sparse-graph driver wrote a malformed trace (or TLC failed):\n" + res["out"][-2500:])
+            rc = generic_trace_validate(w, "C18", "DijkstraSparse.tla", ["C18"], {}, out, ev, lambda x: x.startswith('{"ev":"sparse"'), "long-sparse-graphs")
         ev.cov["exhaustive"] = True
         ev.cov["distinct_nontrivial"] = ev.cov["traces_validated_against_impl"]
         ev.cov["rule"] = ("model: every digraph on 3 vertices (self-loops included) over the weight set, every source, every tie-break; "
                           "real code: all 512 digraphs on 3 vertices plus seeded random graphs with 3-9 vertices built in random insertion "
-                          "orders; one trace = graph, pop sequence (hook), returned maps and EdgeToPath of every vertex")
+                          "orders; one trace = graph, pop sequence (hook), returned maps and EdgeToPath of every vertex; plus long sparse graphs "
+                          "(1100-1375 vertices: a chain with heavy or shortcutting skip edges and back edges) judged by the feasibility + "
+                          "tight-predecessor certificate of DijkstraSparse.tla")
         if os.path.exists(w.path("d_random-5.ndjson")):
             ev.sample([json.loads(x) for x in open(w.path("d_random-5.ndjson")).read().splitlines()[:7]])
         ev.doc["assumptions"] = ["the verif-tagged pop hook reports each vertex taken off the queue with its distance",
